@@ -1,6 +1,6 @@
 """Shared pieces of the transport checks: the QUIC transport model (QuicXport) and its trace validation."""
 import json, random
-import vf, qpaths
+import vf, qpaths, rpaths
 
 QUIC_BUGS = {
     # cfg -> (what TLC must report, which property the sensitivity run belongs to)
@@ -99,6 +99,53 @@ def quic_replay(ctx, drv, prop):
         fields = ",".join(sorted({x.split(":")[0].split("[")[0] for x in e.get("diff", [])})) or "stuck"
         key = "replay:%s:%s%s" % (e.get("act", "cleanup"), fields, ":closed" if e.get("closed") else "")
         ctx.violation(key, "the real QuicTransport leaves the behaviours of QuicXport at step %s of a replayed path: %s (prefix %s)"
+                      % (e.get("step"), "; ".join(e.get("diff", ["exchanges did not end after cancel + Close"])),
+                         json.dumps(e.get("prefix", []))[:1500]),
+                      artefact={"event": e, "paths_file": f})
+
+
+def reuse_replay(ctx, drv, prop):
+    """Spec -> code for the one-at-a-time transport: random behaviours of ReuseStep (TLC's simulator) are stepped
+    through the real ReuseConnTransport under the gate scheduler; the projected state is compared after every step.
+    Divergences belong to C06 (connection reuse, replies), C18 (after Close) or C20 (a released buffer is used)."""
+    n = 1500 if ctx.quick else 25000
+    r, edges = rpaths.simulate(n, 60, ctx.seed)
+    states, init, paths = rpaths.paths_of(edges)
+    if len(paths) < n // 2:
+        raise vf.MachineryError("too few behaviours from the simulator: %d" % len(paths))
+    f = ctx.path("rpaths.json")
+    json.dump({"states": states, "init": init, "paths": paths}, open(f, "w"))
+    t = ctx.path("rreplay.ndjson")
+    ctx.driver(drv, ["-mode", "rreplay", "-n", 3000, "-in", f, "-out", t], timeout=3000)
+    evs = [json.loads(x) for x in open(t).read().splitlines()]
+    done = [e for e in evs if e["ev"] == "rp.done"]
+    if not done:
+        raise vf.MachineryError("replay driver did not finish")
+    steps = done[0]["steps"]
+    ctx.traces += len(paths)
+    ctx.events += steps
+    ctx.extra["reuse_replay"] = {"behaviours": len(paths), "steps_replayed": steps, "model_states_visited": len(states),
+                                 "diverged": done[0]["diverged"]}
+    vf.log("replay ReuseStep -> ReuseConnTransport: %d behaviours, %d steps, %d diverged" % (len(paths), steps, done[0]["diverged"]))
+    for e in evs:
+        if e["ev"] == "rp.poison":
+            if prop == "C20":
+                ctx.violation("Inv_C20_NoReadAfterRelease:replay:" + e.get("where", ""),
+                              "a released (poisoned) buffer was read: %s" % e.get("where"), artefact={"event": e, "paths_file": f})
+            continue
+        if e["ev"] not in ("rp.diverge", "rp.stuck"):
+            continue
+        fields = ",".join(sorted({x.split(":")[0].split("[")[0] for x in e.get("diff", [])})) or "stuck"
+        cls = "C18" if e.get("closed") else "C06"
+        if e["ev"] == "rp.stuck":
+            cls = "C14"
+        if cls != prop and not (prop == "C20" and False):
+            ctx.extra.setdefault("other_property_rejections_ignored", {})
+            k = "replay:" + cls
+            ctx.extra["other_property_rejections_ignored"][k] = ctx.extra["other_property_rejections_ignored"].get(k, 0) + 1
+            continue
+        key = "replay:%s:%s%s" % (e.get("act", "cleanup"), fields, ":closed" if e.get("closed") else "")
+        ctx.violation(key, "the real ReuseConnTransport leaves the behaviours of ReuseStep at step %s of a replayed behaviour: %s (prefix %s)"
                       % (e.get("step"), "; ".join(e.get("diff", ["exchanges did not end after cancel + Close"])),
                          json.dumps(e.get("prefix", []))[:1500]),
                       artefact={"event": e, "paths_file": f})
